@@ -292,11 +292,20 @@ impl<SP: StorageProvider, PS: PolicyStore> Transaction<SP, PS> {
         ) {
             perspective.revert(checkpoint)?;
             sink.rollback();
+            if !perspective.includes(parent.id) {
+                // The perspective was created for this command and holds
+                // nothing else. Drop it: an empty perspective cannot be
+                // written out, and `parent` is still a tip.
+                self.perspective = None;
+                self.phead = None;
+            }
             return Err(e.into());
         }
         perspective.add_command(command)?;
         sink.commit();
 
+        // `parent` now has a descendant in this transaction.
+        self.heads.remove(&parent.id);
         self.phead = Some(command.id());
 
         Ok(())
@@ -397,7 +406,6 @@ impl<SP: StorageProvider, PS: PolicyStore> Transaction<SP, PS> {
             .insert(storage.get_linear_perspective(loc)?);
 
         self.phead = Some(parent.id);
-        self.heads.remove(&parent.id);
 
         Ok(p)
     }
